@@ -12,6 +12,7 @@ package graphql
 
 import (
 	"context"
+	"sync/atomic"
 
 	gql "github.com/sourcenetwork/graphql-go"
 	"github.com/sourcenetwork/graphql-go/language/ast"
@@ -33,7 +34,8 @@ var _ core.Parser = (*parser)(nil)
 var tracer = telemetry.NewTracer()
 
 type parser struct {
-	schemaManager *schema.SchemaManager
+	// schemaManager is replaced when the schema changes while requests are being parsed concurrently.
+	schemaManager atomic.Pointer[schema.SchemaManager]
 }
 
 func NewParser() (*parser, error) {
@@ -42,9 +44,10 @@ func NewParser() (*parser, error) {
 		return nil, err
 	}
 
-	p := &parser{
-		schemaManager: schemaManager,
-	}
+	resolveLazyFields(schemaManager)
+
+	p := &parser{}
+	p.schemaManager.Store(schemaManager)
 
 	return p, nil
 }
@@ -67,7 +70,7 @@ func (p *parser) BuildRequestAST(ctx context.Context, request string) (*ast.Docu
 }
 
 func (p *parser) IsIntrospection(ast *ast.Document) bool {
-	schema := p.schemaManager.Schema()
+	schema := p.schemaManager.Load().Schema()
 	return defrap.IsIntrospectionQuery(*schema, ast)
 }
 
@@ -75,7 +78,7 @@ func (p *parser) ExecuteIntrospection(ctx context.Context, request string) *clie
 	_, span := tracer.Start(ctx)
 	defer span.End()
 
-	schema := p.schemaManager.Schema()
+	schema := p.schemaManager.Load().Schema()
 	params := gql.Params{Schema: *schema, RequestString: request}
 	r := gql.Do(params)
 
@@ -96,7 +99,7 @@ func (p *parser) Parse(ctx context.Context, ast *ast.Document, options *client.G
 	_, span := tracer.Start(ctx)
 	defer span.End()
 
-	schema := p.schemaManager.Schema()
+	schema := p.schemaManager.Load().Schema()
 	validationResult := gql.ValidateDocument(schema, ast, nil)
 	if !validationResult.IsValid {
 		errors := make([]error, len(validationResult.Errors))
@@ -113,7 +116,7 @@ func (p *parser) ParseSDL(ctx context.Context, sdl string) ([]core.Collection, e
 	_, span := tracer.Start(ctx)
 	defer span.End()
 
-	return p.schemaManager.ParseSDL(sdl)
+	return p.schemaManager.Load().ParseSDL(sdl)
 }
 
 func (p *parser) SetSchema(ctx context.Context, collections []client.CollectionDefinition) error {
@@ -130,16 +133,35 @@ func (p *parser) SetSchema(ctx context.Context, collections []client.CollectionD
 		return err
 	}
 
+	resolveLazyFields(schemaManager)
+
 	txn := datastore.CtxMustGetTxn(ctx)
 
 	txn.OnSuccess(
 		func() {
-			p.schemaManager = schemaManager
+			p.schemaManager.Store(schemaManager)
 		},
 	)
 	return err
 }
 
+// resolveLazyFields forces the types of the schema to resolve their fields.
+//
+// The GQL library resolves the fields of a type on first use and without synchronisation, which is a
+// data race once the schema is shared between concurrently validated requests.
+func resolveLazyFields(schemaManager *schema.SchemaManager) {
+	for _, t := range schemaManager.Schema().TypeMap() {
+		switch typ := t.(type) {
+		case *gql.InputObject:
+			typ.Fields()
+		case *gql.Object:
+			typ.Fields()
+		case *gql.Interface:
+			typ.Fields()
+		}
+	}
+}
+
 func (p *parser) NewFilterFromString(collectionType string, body string) (immutable.Option[request.Filter], error) {
-	return defrap.NewFilterFromString(*p.schemaManager.Schema(), collectionType, body)
+	return defrap.NewFilterFromString(*p.schemaManager.Load().Schema(), collectionType, body)
 }
